@@ -12,16 +12,19 @@ reached on an instance that a front end keeps alive and evaluates between the us
 * fresh  -- the history is applied to a new instance and the configuration is evaluated once, at the end;
 * live   -- ONE instance, and the configuration is EVALUATED BETWEEN operations (so memoised visibilities, values and
             selections exist when the next operation arrives).  Dimensions:
-              - how it is evaluated (READS): "values" (every option's value, as the output writers do -- never asks a
-                choice for its selection), "full" (values, visibilities, assignable + every choice's selection),
-                "shown" (what a menu front end shows: visibilities, and values / selections of visible items only),
-                thorough also "choices" (only the choices) and "outputs" (the real header/CMake/JSON/sdkconfig writers);
+              - how it is evaluated (READS): "values" (every option's value, as the output writers and kconfserver do
+                -- never asks a choice for its selection), "full" (values, visibilities, assignable + every choice's
+                selection); thorough also "shown" (what a menu front end touches: prompt conditions, and values /
+                selections of the visible items only), "choices" (only the choices) and "outputs" (the real
+                header/CMake/JSON/sdkconfig writers);
               - when: (1) a second explicit-state search per program and READS kind in which the configuration is
-                evaluated before the first and after every operation; its states are merged on (user values, user
-                selections, the CONTENT of every memo cell) -- sound, because that is everything an instance carries,
-                so a transition into a seen state (hide -> show again, pick -> reset ...) is known to behave like it;
-                (2) for the first history reaching each state of the fresh search: every non-empty subset of the
-                evaluation points {initially, after op 1, ..., after op n-1}.
+                evaluated before the first and after every operation (load alphabet reduced to one file per effect
+                class); its states are merged on (user values, user selections, the CONTENT of every memo cell), taken
+                right after an evaluation -- everything that an instance carries into the next operation, so a
+                transition into a seen state (hide -> show again, pick -> reset ...) is known to behave like it;
+                (2) for the first history reaching each state of the fresh search (full alphabet): evaluation at each
+                single point of {initially, after op 1, ..., after op n-1} and at all of them (quick) / at every
+                non-empty subset of the points (thorough).
   The "hidden" families give the live search something to bite on: a choice hidden in every documented way (choice
   `depends on`, prompt `if`, enclosing `if`, enclosing menu `depends on` / `visible if`, `if` inside a menu, two
   levels) by A / !A / A && B / a member of another choice, for plain, defaulted, named, twice-defined, nested and paired
@@ -49,18 +52,20 @@ RULE = (
     "another choice} x shape {plain, conditional defaults, named, members with own condition, named twice (both / first "
     "definition hidden), nested (outer / inner hidden), pair of choices behind one switch}) over set/reset/load/merge "
     "operations; states merged on (user values, user selections). Every state is evaluated on a fresh instance; the first "
-    "history reaching it also on one live instance evaluated at every non-empty subset of the points {initially, after op "
-    "1..n-1}, per READS kind {values, full, shown; thorough + choices, outputs}. A second BFS per program and READS kind "
-    "(alphabet without the redundant load files) evaluates before the first and after every operation and merges states "
-    "on (user values, user selections, content of every memo cell). "
+    "history reaching it also on one live instance evaluated at each single point / all points (thorough: every non-empty "
+    "subset) of {initially, after op 1..n-1}, per READS kind {values, full; thorough + shown, choices, outputs}. A second BFS "
+    "per program and READS kind (one load file per effect class; also the alphabet of the 'hidden' families) evaluates before "
+    "the first and after every operation and merges states on (user values, user selections, content of every memo cell). "
     "distinct_nontrivial = distinct (program, user state) pairs in which some choice has a hidden member, a user pick, or is invisible."
 )
 ASSUMPTIONS = [
     "the user's pick is the last member set to y since the last reset / replacing load (mck/refsem.RefState)",
     "Symbol.unset_value on members is not in the alphabet (UI-level reset is what users have)",
     "loaded files carry no default-marked entries (C08 owns those)",
-    "an instance carries no per-option / per-choice state beyond the cells the live search merges on (SYM_CELLS / "
-    "CHOICE_CELLS: user values, selections, load bookkeeping, every memo cell); 'evaluating' the configuration means reading through the public properties "
+    "no per-option / per-choice state influences values beyond the cells the live search merges on (SYM_CELLS / CHOICE_CELLS: "
+    "user values, selections, default-injection flags, every memo cell; NOT the load/report bookkeeping _was_set, "
+    "_present_in_current_sdkconfig, _sdkconfig_value, _user_source, _old_val -- the fresh search makes the same assumption); "
+    "'evaluating' the configuration means reading through the public properties "
     "(str_value / visibility / assignable / Choice.selection) or running the real output writers",
     "a named choice defined twice is only generated with all definitions hidden alike or with the single prompted one hidden "
     "(what per-definition `depends on` means for the members of the other definition is not documented)",
@@ -379,15 +384,14 @@ def replay_live(files, h, rk: str, points) -> "impl.Inst":
     return inst
 
 
+# what an option / a choice carries from one operation to the next, as far as values are concerned.  Not included: the
+# load / report bookkeeping (_was_set, _present_in_current_sdkconfig, _sdkconfig_value, _user_source, _old_val), which
+# only feeds warnings, the report and sync_deps and would split every state by "how the user value got there".
 SYM_CELLS = (
-    "_user_value", "_cached_str_val", "_cached_bool_val", "_cached_vis", "_cached_assignable", "_write_to_conf", "_was_set",
-    "_present_in_current_sdkconfig", "_has_active_indirect_set", "_user_source", "_default_value_injected", "_defaults_resolved",
-    "_old_val", "_loaded_as_default", "_sdkconfig_value",
+    "_user_value", "_cached_str_val", "_cached_bool_val", "_cached_vis", "_cached_assignable", "_write_to_conf",
+    "_has_active_indirect_set", "_default_value_injected", "_defaults_resolved", "_loaded_as_default",
 )
-CHOICE_CELLS = (
-    "_user_selection", "_user_value", "_cached_vis", "_cached_assignable", "_cached_selection", "_was_set",
-    "_present_in_current_sdkconfig", "_defaults_resolved", "_user_source",
-)
+CHOICE_CELLS = ("_user_selection", "_user_value", "_cached_vis", "_cached_assignable", "_cached_selection", "_defaults_resolved")
 
 
 def _cell(x):
@@ -400,8 +404,7 @@ def _cell(x):
 
 
 def memo_key(k) -> tuple:
-    """everything an instance carries per option / choice: user values / selections, load bookkeeping and the content of
-    every memo cell (deliberately over-fine)"""
+    """user values / selections and the content of every memo cell, per option / choice"""
     return (
         tuple(tuple(_cell(getattr(s, a, None)) for a in SYM_CELLS) for s in k.unique_defined_syms),
         tuple(tuple(_cell(getattr(c, a, None)) for a in CHOICE_CELLS) for c in k.unique_choices),
@@ -450,8 +453,7 @@ def explore_item(item, r: common.Result, only_history=None, only_reads=None):
         try:
             live = replay_live(files, h, rk, pts)
         except impl.OpRaised as e:
-            if e.op[0] == "eval":  # an operation that raises is reported by the fresh path
-                raised(h, e, (rk, pts))
+            raised(h, e, (rk, pts))
             return
         r.count("live_subset_replays")
         check_on(h, live, "live:" + rk, rv or ref_eval(h), (rk, pts))
@@ -554,8 +556,7 @@ def explore_item(item, r: common.Result, only_history=None, only_reads=None):
     def on_raise_live(h, e):
         if not isinstance(e, impl.OpRaised):
             raise e
-        if e.op[0] == "eval":
-            raised(h, e, (rk, tuple(range(len(h) + 1))))
+        raised(h, e, (rk, tuple(range(len(h) + 1))))
 
     st = explore.bfs(build_live, lambda h, s: ops, lambda s: memo_key(s.k), check_live, item["depth"], on_raise=on_raise_live, check_revisits=False)
     r.count("live_states", st.states)
